@@ -18,6 +18,7 @@ INVARIANT RefusesExactly
 INVARIANT CoordinatesAgree
 INVARIANT LenIsYielded
 INVARIANT PathIndependent
+INVARIANT LivePrefixes
 INVARIANT WellFormedLists
 INVARIANT Disjoint
 INVARIANT Cover
